@@ -1505,7 +1505,7 @@ class Compare(Entry):
             kind = r.choice(["copy", "last-item", "block-edge-item"])
             if kind != "copy":
                 f = r.choice(a2["fields"])
-                i = n - 1 if kind == "last-item" else r.choice([x for x in (255, 256, 511, 512, 1023, 1024, 4095, 4096, 8191, 8192) if x < n])
+                i = n - 1 if kind == "last-item" else r.choice([x for x in (255, 256, 511, 512, 1023, 1024, 4095, 4096, 8191, 8192) if x < n] or [n - 1])
                 b = bytearray(bytes.fromhex(f["cells"][i]))
                 b[0] ^= 0x01 if f["type"][1] != "f" else 0x00
                 if f["type"][1] == "f":          # another finite value
